@@ -122,6 +122,9 @@ nni_chunk_grow(nni_chunk *ch, size_t newsz, size_t headwanted)
 		size_t headroom = (size_t) (ch->ch_ptr - ch->ch_buf);
 		if (headwanted < headroom) {
 			headwanted = headroom; // Never shrink this.
+			if (headwanted > (SIZE_MAX - newsz)) {
+				return (NNG_ENOMEM);
+			}
 		}
 		if (((newsz + headwanted) <= ch->ch_cap) &&
 		    (headwanted <= headroom)) {
@@ -459,7 +462,9 @@ nni_msg_alloc(nni_msg **mp, size_t sz)
 	// to allow for inlining backtraces, etc.  We also allow the
 	// amount of space at the end for the same reason.  Large aligned
 	// allocations are unmolested to avoid excessive overallocation.
-	if ((sz < 1024) || ((sz & (sz - 1)) != 0)) {
+	if (sz > (SIZE_MAX - 32)) {
+		rv = NNG_ENOMEM;
+	} else if ((sz < 1024) || ((sz & (sz - 1)) != 0)) {
 		rv = nni_chunk_grow(&m->m_body, sz + 32, 32);
 	} else {
 		rv = nni_chunk_grow(&m->m_body, sz, 0);
